@@ -47,6 +47,10 @@ class _GraphIO(collections.UserList["_core.Value"]):
         """Check the invariance of the graph."""
         raise NotImplementedError
 
+    def _check_value(self, value: _core.Value) -> None:
+        """Raise if the value cannot be owned by this list. Must not modify anything."""
+        raise NotImplementedError
+
     def _set_graph(self, value: _core.Value) -> None:
         """Set the graph for the value."""
         raise NotImplementedError
@@ -65,14 +69,18 @@ class _GraphIO(collections.UserList["_core.Value"]):
     def extend(self, other) -> None:
         """Extend the list of inputs or outputs."""
         other = tuple(other)
+        # Validate every item before taking ownership of any of them
+        for item in other:
+            self._check_value(item)
         for item in other:
             self._set_graph(item)
         super().extend(other)
 
     def insert(self, i: int, item: _core.Value) -> None:
         """Insert an input/output to the graph."""
-        super().insert(i, item)
+        # Perform checks first in _set_graph before modifying the data structure
         self._set_graph(item)
+        super().insert(i, item)
         self._check_invariance()
 
     def pop(self, i: int = -1) -> _core.Value:
@@ -102,7 +110,10 @@ class _GraphIO(collections.UserList["_core.Value"]):
     def __setitem__(self, i, item) -> None:
         """Replace an input/output to the node."""
         if isinstance(item, Iterable) and isinstance(i, slice):
-            # Modify a slice of the list
+            # Modify a slice of the list. Validate the new items before releasing the old ones
+            item = tuple(item)
+            for value in item:
+                self._check_value(value)
             for value in self.data[i]:
                 self._maybe_unset_graph(value)
             for value in item:
@@ -111,14 +122,24 @@ class _GraphIO(collections.UserList["_core.Value"]):
             self._check_invariance()
             return
         elif isinstance(i, SupportsIndex):
-            # Replace a single item
-            self._maybe_unset_graph(self.data[i])
+            # Replace a single item. Validate the new item before releasing the old one
+            old_value = self.data[i]
+            self._check_value(item)
+            self._maybe_unset_graph(old_value)
             self._set_graph(item)
             super().__setitem__(i, item)
             self._check_invariance()
             return
 
         raise TypeError(f"Invalid types for __setitem__: {type(i)} and {type(item)}")
+
+    def __delitem__(self, i) -> None:
+        """Remove an input/output (or a slice of them) from the graph."""
+        removed = self.data[i] if isinstance(i, slice) else [self.data[i]]
+        super().__delitem__(i)
+        for value in removed:
+            self._maybe_unset_graph(value)
+        self._check_invariance()
 
     def __getitem__(self, i):
         """Get an input/output from the graph."""
@@ -133,6 +154,7 @@ class _GraphIO(collections.UserList["_core.Value"]):
     __iadd__ = _unimplemented
     __mul__ = _unimplemented
     __rmul__ = _unimplemented
+    __imul__ = _unimplemented
 
 
 class GraphInputs(_GraphIO):
@@ -149,8 +171,8 @@ class GraphInputs(_GraphIO):
                 f"Invariance error: Value '{value}' is not an input of the graph: {self._graph!r}"
             )
 
-    def _set_graph(self, value: _core.Value) -> None:
-        """Set the graph for the value."""
+    def _check_value(self, value: _core.Value) -> None:
+        """Raise if the value cannot be an input of this graph."""
         if value._graph is not None and value._graph is not self._graph:
             raise ValueError(
                 f"Value '{value}' is already owned by a different graph. Please remove the value from the previous graph first"
@@ -159,6 +181,10 @@ class GraphInputs(_GraphIO):
             raise ValueError(
                 f"Value '{value}' is produced by a node and cannot be an input to the graph. Please create new Values for graph inputs"
             )
+
+    def _set_graph(self, value: _core.Value) -> None:
+        """Set the graph for the value."""
+        self._check_value(value)
         self._ref_counter[value] += 1
         value._is_graph_input = True
         value._graph = self._graph
@@ -191,12 +217,16 @@ class GraphOutputs(_GraphIO):
                 f"Invariance error: Value '{value}' is not an output of the graph: {self._graph!r}"
             )
 
-    def _set_graph(self, value: _core.Value) -> None:
-        """Set the graph for the value."""
+    def _check_value(self, value: _core.Value) -> None:
+        """Raise if the value cannot be an output of this graph."""
         if value._graph is not None and value._graph is not self._graph:
             raise ValueError(
                 f"Value '{value}' is already an output of a different graph. Please remove the value from the previous graph first"
             )
+
+    def _set_graph(self, value: _core.Value) -> None:
+        """Set the graph for the value."""
+        self._check_value(value)
         self._ref_counter[value] += 1
         value._is_graph_output = True
         value._graph = self._graph
@@ -257,17 +287,22 @@ class GraphInitializers(collections.UserDict[str, "_core.Value"]):
             raise TypeError(f"Value name must be a string, not {type(key)}")
         if key == "":
             raise ValueError("Value name cannot be an empty string")
-        if not value.name:
-            logger.info("Value %s does not have a name, setting it to '%s'", value, key)
-            value.name = key
-        elif key != value.name:
+        if value.name and key != value.name:
             raise ValueError(
                 f"Key '{key}' does not match the name of the value '{value.name}'. Please use the value.name as the key."
             )
+        # Perform all checks before renaming the value or releasing the entry being replaced
         if value.producer() is not None:
             raise ValueError(
                 f"Value '{value}' is produced by a node and cannot be a graph initializer"
             )
+        if value._graph is not None and value._graph is not self._graph:
+            raise ValueError(
+                f"Value '{value}' is already an initializer of a different graph. Please remove the value from the previous graph first"
+            )
+        if not value.name:
+            logger.info("Value %s does not have a name, setting it to '%s'", value, key)
+            value.name = key
         if key in self.data:
             # If the key already exists, unset the old value
             old_value = self.data[key]
